@@ -38,7 +38,7 @@ RULE = ('a pool of near-colliding call specs (same length / different filter, sa
 ASSUMPTIONS = ['torch kernels are deterministic for a fixed intra-op thread setting (pinned to 1)',
                'schedules are sampled, not enumerated; CPython serialises bytecodes, true parallelism exists only '
                'inside torch ops', 'float results compared bitwise, 4-ulp fallback class is inconclusive']
-WORK = os.path.join(core.WORK, PROP)
+WORK = os.environ.get('VERIF_C15_WORK') or os.path.join(core.WORK, PROP)
 
 
 # ---- the pool ----------------------------------------------------------------------------------
@@ -311,14 +311,13 @@ def _run(cmd, env, timeout, log):
 
 
 def driver(tier, seed, t0):
-    os.makedirs(WORK, exist_ok=True)
-    for f in os.listdir(WORK):
-        os.remove(os.path.join(WORK, f))
+    global WORK
+    WORK = core.private_workdir(PROP)
     specs = pool(seed, tier)
     specfile = os.path.join(WORK, 'specs.json')
     json.dump(specs, open(specfile, 'w'))
     env = dict(os.environ)
-    env.update({'VERIF_SEED': str(seed), 'VERIF_REPO': core.repo_path(), core.GUARD: '1', 'OMP_NUM_THREADS': '1',
+    env.update({'VERIF_C15_WORK': WORK, 'VERIF_SEED': str(seed), 'VERIF_REPO': core.repo_path(), core.GUARD: '1', 'OMP_NUM_THREADS': '1',
                 'MKL_NUM_THREADS': '1', 'PYTHONHASHSEED': env.get('PYTHONHASHSEED', '0'),
                 'PYTHONPATH': core.repo_path() + os.pathsep + core.VERIF + os.pathsep + env.get('PYTHONPATH', '')})
     me = [sys.executable, '-m', 'vf.props.c15']
